@@ -216,8 +216,8 @@ def shard_setup(obs) -> None:
 
 
 def gen_cases(tier: str, seed: int):
-    n = {"quick": 500, "thorough": 7000}[tier]
-    nchain = {"quick": 24, "thorough": 240}[tier]
+    n = {"quick": 500, "thorough": 40000}[tier]
+    nchain = {"quick": 24, "thorough": 1200}[tier]
     rng = np.random.default_rng([seed, 4])
     metrics = ("none", "identity", "scaled", "diag_array", "dense_array", "dense", "chol_lower", "eig", "block",
                "lowrank_plus", "lowrank_minus")
